@@ -232,6 +232,7 @@ func cmdVerify(args []string) {
 	maxPaths := fs.Int("maxpaths", 20000, "path budget per function")
 	maxShow := fs.Int("show", 8, "max failed obligations listed per function (non-verbose)")
 	nshown := map[string]int{}
+	stats := fs.Bool("stats", false, "print solver time statistics")
 	fs.Parse(args)
 	o := RunOpts{Repo: *repo, Verif: *verif, Props: parseProps(*props), Timeout: *timeout, Portfolio: strings.Split(*portfolio, ","), Jobs: *jobs, KeepDir: *keep, MaxPaths: *maxPaths}
 	if *fnre != "" {
@@ -252,6 +253,9 @@ func cmdVerify(args []string) {
 		for _, e := range fr.Errs {
 			fmt.Printf("   ERROR: %s\n", e)
 			bad++
+		}
+		if fr.Enc != nil && len(fr.Enc.havocAllCalls) > 0 {
+			fmt.Printf("   note: calls without contract (whole heap havocked): %s\n", strings.Join(sortedKeys(fr.Enc.havocAllCalls), "; "))
 		}
 		bad += len(judge(fr))
 		for _, ob := range fr.Obs {
@@ -301,6 +305,42 @@ func cmdVerify(args []string) {
 					}
 				}
 			}
+		}
+	}
+	if *stats {
+		type row struct {
+			name string
+			sec  float64
+			tr   string
+		}
+		var rows []row
+		byKind := map[string]float64{}
+		cnt := map[string]int{}
+		for _, fr := range rr.Results {
+			for _, ob := range fr.Obs {
+				if ob.Result == nil {
+					continue
+				}
+				sec := 0.0
+				for _, t := range ob.Result.Tried {
+					var s float64
+					if i := strings.LastIndex(t, ":"); i >= 0 {
+						fmt.Sscanf(strings.TrimSuffix(t[i+1:], "s"), "%f", &s)
+					}
+					sec += s
+				}
+				k := ob.Kind
+				byKind[k] += sec
+				cnt[k]++
+				rows = append(rows, row{shortName(fr.Fn) + " " + ob.Name, sec, strings.Join(ob.Result.Tried, ",")})
+			}
+		}
+		sort.Slice(rows, func(i, j int) bool { return rows[i].sec > rows[j].sec })
+		for i := 0; i < 25 && i < len(rows); i++ {
+			fmt.Printf("  slow %.1fs %s  %s\n", rows[i].sec, rows[i].name, truncate(rows[i].tr, 150))
+		}
+		for _, k := range sortedKeys(cnt) {
+			fmt.Printf("  kind %-10s n=%4d solver-seconds=%.1f\n", k, cnt[k], byKind[k])
 		}
 	}
 	fmt.Printf("obligations: %d, failed/errored: %d   (load %.1fs, vc %.1fs, solve %.1fs)\n", total, bad, rr.Loaded.LoadSeconds, rr.VCSeconds, rr.SolveSeconds)
